@@ -31,15 +31,99 @@ MAX_STMTS = 120
 _KNOWN: Optional[Dict[str, Set[str]]] = None
 
 
+_SIGS: Dict[str, Dict[str, str]] = {}
+
+
 def known_functions() -> Dict[str, Set[str]]:
     global _KNOWN
     if _KNOWN is None:
         p = os.path.join(os.path.dirname(os.path.abspath(__file__)), "known_functions.json")
         try:
-            _KNOWN = {k: set(v) for k, v in json.load(open(p)).items()}
+            raw = json.load(open(p))
+            _SIGS.update(raw.pop("#signatures", {}))
+            _KNOWN = {k: set(v) for k, v in raw.items()}
         except (OSError, ValueError):
             _KNOWN = {}
     return _KNOWN
+
+
+def body_signature(fn: ast.FunctionDef, own_names: Set[str]) -> str:
+    """digest of a function's parameters and body in which the names of the module's own functions are blanked: equal for a
+    function and its renamed copy (whose recursive / sibling calls were renamed along)"""
+    import hashlib
+
+    class B(ast.NodeTransformer):
+        def visit_Attribute(self, n):
+            self.generic_visit(n)
+            return ast.Attribute(value=n.value, attr="_F_", ctx=n.ctx) if n.attr in own_names else n
+
+        def visit_Name(self, n):
+            return ast.Name(id="_F_", ctx=n.ctx) if n.id in own_names else n
+
+    body = [b for b in fn.body if not (isinstance(b, ast.Expr) and isinstance(b.value, ast.Constant) and isinstance(b.value.value, str))]
+    txt = ast.dump(ast.Module(body=[B().visit(copy.deepcopy(x)) for x in body], type_ignores=[]), annotate_fields=False, include_attributes=False)
+    args = ",".join(a.arg for a in fn.args.posonlyargs + fn.args.args + fn.args.kwonlyargs)
+    return hashlib.sha1((args + "|" + txt).encode()).hexdigest()[:16]
+
+
+def undo_renames(trees: Dict[str, ast.Module]) -> List[str]:
+    """A function of the pinned tree that is missing, while a function unknown to the vocabulary with exactly its body (up
+    to the names of the module's functions) exists in the same place, was renamed: the analysis renames it back
+    everywhere (names carry no behaviour), so that rules anchored on the original name keep working."""
+    kf = known_functions()
+    if not kf or not _SIGS:
+        return []
+    plan: Dict[str, str] = {}  # new simple name -> old simple name
+    for mod, t in trees.items():
+        known, sigs = kf.get(mod, set()), _SIGS.get(mod, {})
+        if not sigs:
+            continue
+        present: Dict[str, ast.FunctionDef] = {}
+        for st in t.body:
+            if isinstance(st, ast.FunctionDef):
+                present[st.name] = st
+            elif isinstance(st, ast.ClassDef):
+                for m in st.body:
+                    if isinstance(m, ast.FunctionDef):
+                        present[f"{st.name}.{m.name}"] = m
+        missing = {q for q in sigs if q not in present}
+        unknown = {q: d for q, d in present.items() if q not in known}
+        if not missing or not unknown:
+            continue
+        own = {q.split(".")[-1] for q in list(sigs) + list(present)}
+        usig = {q: body_signature(d, own) for q, d in unknown.items()}
+        for old in sorted(missing):
+            cands = [q for q, sg in usig.items() if sg == sigs[old] and q.rsplit(".", 1)[0:-1] == old.rsplit(".", 1)[0:-1]]
+            if len(cands) == 1:
+                new_s, old_s = cands[0].split(".")[-1], old.split(".")[-1]
+                if plan.get(new_s, old_s) == old_s:
+                    plan[new_s] = old_s
+    if not plan:
+        return []
+    # the old names must be free (nothing else is called that now)
+    used = set()
+    for t in trees.values():
+        for n in ast.walk(t):
+            if isinstance(n, ast.Attribute):
+                used.add(n.attr)
+            elif isinstance(n, ast.Name):
+                used.add(n.id)
+            elif isinstance(n, ast.FunctionDef):
+                used.add(n.name)
+    plan = {k: v for k, v in plan.items() if v not in used}
+    if not plan:
+        return []
+    for t in trees.values():
+        for n in ast.walk(t):
+            if isinstance(n, ast.Attribute) and n.attr in plan:
+                n.attr = plan[n.attr]
+            elif isinstance(n, ast.Name) and n.id in plan:
+                n.id = plan[n.id]
+            elif isinstance(n, ast.FunctionDef) and n.name in plan:
+                n.name = plan[n.name]
+            elif isinstance(n, ast.keyword) and n.arg in plan:
+                pass
+    return [f"{k} -> {v}" for k, v in sorted(plan.items())]
 
 
 def _contains(stmts, kinds) -> bool:
